@@ -8,6 +8,7 @@ package c04
 import (
 	"fmt"
 	"os"
+	"runtime"
 	"strings"
 	"sync"
 	"sync/atomic"
@@ -461,15 +462,24 @@ func cacheOracle(c *CacheCase) (int64, error) {
 	cache := updog.NewLRUCache(c.Cap, updog.WithCacheMetrics(&updog.CacheMetrics{CacheHit: &cn.hit, CacheMiss: &cn.miss, GetCall: &cn.get, PutCall: &cn.put}))
 	var gets, puts atomic.Int64
 	wasPut := make([]atomic.Bool, c.Keys)
+	arrived := make([]atomic.Int32, c.Keys)
 	_, errs := fanout(c.Goroutines, func(g int) error {
 		x := uint32(c.Pattern*7919 + g*104729 + 1)
 		if c.Pattern%2 == 0 {
 			// all goroutines start by storing the same, not yet cached keys in
-			// the same order: concurrent first Put of one key
+			// the same order: concurrent first Put of one key.  They meet before
+			// every key (a spin barrier with a bound), so that the Puts of one key
+			// really start together
 			for k := 0; k < c.Keys; k++ {
 				bm := roaring.New()
 				bm.Add(uint32(k))
 				bm.Add(uint32(2000 + g))
+				arrived[k].Add(1)
+				for spin := 0; spin < 200000 && int(arrived[k].Load()) < c.Goroutines; spin++ {
+					if spin%64 == 63 {
+						runtime.Gosched()
+					}
+				}
 				cache.Put(uint64(k), bm)
 				wasPut[k].Store(true)
 				puts.Add(1)
@@ -653,7 +663,7 @@ func bigFirstUse(t *testing.T, n, goroutines int, oc fix.OpenCfg) {
 func TestQuick(t *testing.T) {
 	fix.Pinned(t, prop, replay)
 	bigFirstUse(t, 70001, 6, fix.OpenCfg{CacheCap: -1})
-	fix.Check(t, "rawcache", 60, func(rt *rapid.T) { runCache(rt, drawCacheCase(rt)) })
+	fix.Check(t, "rawcache", 120, func(rt *rapid.T) { runCache(rt, drawCacheCase(rt)) })
 	fix.Check(t, "inprocess", 30, func(rt *rapid.T) { run(rt, drawCase(rt, 5000, false), "inprocess") })
 	fix.Check(t, "server", 3, func(rt *rapid.T) { run(rt, drawCase(rt, 5000, true), "server") })
 }
